@@ -24,7 +24,13 @@ def build(reg):
     @reg.model('GraphNode.parents')
     def parents(eng, st, args, kw, node):
         p = z3.Const(fresh_name('p'), N)
-        return [(st, eng.alloc(st, ST, z3.Lambda([p], PARENT(p, args[0].z))))]
+        # parents(True): every edge (direct and indirect dependencies); parents(False): only the direct ones, a subset
+        DIRECT = z3.Function('IS_DIRECT_PARENT_OF', N, N, z3.BoolSort())
+        flag = args[1] if len(args) > 1 else kw.get('indirect', kw.get('withIndirect'))
+        if flag is None: raise Unsupported('parents() without its flag at %s' % eng.loc(node))
+        fz = eng.truth(st, flag)
+        st.assume(z3.ForAll([p], z3.Implies(DIRECT(p, args[0].z), PARENT(p, args[0].z)), patterns=[DIRECT(p, args[0].z)]))
+        return [(st, eng.alloc(st, ST, z3.Lambda([p], z3.If(fz, PARENT(p, args[0].z), DIRECT(p, args[0].z)))))]
     reg.pure_names |= {'GraphNode.parents'}
     # set.pop(): arbitrary member
     def set_pop(eng, st, args, kw, node):
